@@ -102,7 +102,7 @@ Definition htrans (eps aeps q : Qc) (o : op) (next : nat) (l : list hcell) : opt
 Inductive hop :=
 | HApply (k : nat) (o : op)            (* b = A[k].refine(t, levels) / .uniform_refinement_depth() / .griddify(); b is kept *)
 | HCopy (k : nat)                      (* b = Allocation([(c.rect, c.alloc, c.depth) for c in A[k].allocations]); kept *)
-| HSetFixed (k i : nat) (b : bool)     (* A[k].allocations[i].rect.fixed = b *)
+| HSetFixed (k : nat) (x y : Qc) (b : bool)   (* c.rect.fixed = b for the cell c of A[k] whose centre is (x, y) *)
 | HMbr (k : nat) (t : Qc)              (* A[k].must_be_refined(t) *)
 | HMaxDepth (k : nat)                  (* A[k].max_refinement_depth() *)
 | HNumRect (k : nat)                   (* A[k].num_rectangles *)
@@ -110,16 +110,21 @@ Inductive hop :=
 
 Inductive hobs :=
 | ONew (r : option (list cell))                      (* the cells of the new allocation; None = the call raised *)
-| OFlags (fl : list (list bool))                     (* the fixed flags of all cells of all allocations *)
+| OFixed (fl : list (list (Qc * Qc)))                (* the centres of the fixed cells of every allocation *)
 | OBool (b : bool)
 | ONat (n : nat)
 | OAreas (l : list (string * Qc * (Qc * Qc))).
 
-(* indices are taken modulo the current sizes, so every step is defined *)
+(* The position of a cell in the list of an allocation is not part of what C02 / C12 state, so a cell is addressed
+   by its centre (cells of an accepted allocation do not overlap: the centre identifies the cell); an allocation by
+   its index in the history, taken modulo the number of allocations built so far.  Every step is defined. *)
 Definition hget (s : hstate) (k : nat) : list hcell :=
   nth (k mod List.length (hallocs s)) (hallocs s) [].
-Definition hflags (s : hstate) : list (list bool) :=
-  map (map (fun hc : hcell => fixed (crect (snd hc)))) (hallocs s).
+Definition centre_of (c : cell) : Qc * Qc := (cx (crect c), cy (crect c)).
+Definition at_centre (x y : Qc) (hc : hcell) : bool :=
+  Qceqb (cx (crect (snd hc))) x && Qceqb (cy (crect (snd hc))) y.
+Definition hfixed (s : hstate) : list (list (Qc * Qc)) :=
+  map (fun l => map centre_of (filter (fun c => fixed (crect c)) (hvals l))) (hallocs s).
 Definition hset_cell (id : nat) (b : bool) (hc : hcell) : hcell :=
   if Nat.eqb (fst hc) id then (fst hc, cset_fixed b (snd hc)) else hc.
 Definition hset_fixed (id : nat) (b : bool) (s : hstate) : hstate :=
@@ -139,11 +144,10 @@ Definition hstep (eps aeps q : Qc) (o : hop) (s : hstate) : hstate * hobs :=
       | Some _ => (mkH (hnext s) (hallocs s ++ [hget s k]), ONew (Some (hvals (hget s k))))
       | None => (s, ONew None)
       end
-  | HSetFixed k i b =>
-      let l := hget s k in
-      match nth_error l (i mod List.length l) with
-      | Some hc => let s' := hset_fixed (fst hc) b s in (s', OFlags (hflags s'))
-      | None => (s, OFlags (hflags s))
+  | HSetFixed k x y b =>
+      match find (at_centre x y) (hget s k) with
+      | Some hc => let s' := hset_fixed (fst hc) b s in (s', OFixed (hfixed s'))
+      | None => (s, OFixed (hfixed s))
       end
   | HMbr k t => (s, OBool (must_be_refined t (hvals (hget s k))))
   | HMaxDepth k => (s, ONat (max_depth (hvals (hget s k))))
@@ -153,7 +157,7 @@ Definition hstep (eps aeps q : Qc) (o : hop) (s : hstate) : hstate * hobs :=
 
 Definition hop_target (o : hop) : nat :=
   match o with
-  | HApply k _ | HCopy k | HSetFixed k _ _ | HMbr k _ | HMaxDepth k | HNumRect k | HAreas k => k
+  | HApply k _ | HCopy k | HSetFixed k _ _ _ | HMbr k _ | HMaxDepth k | HNumRect k | HAreas k => k
   end.
 
 (* an event: the call, the values of the allocation it was applied to at that moment, what it returned *)
